@@ -41,6 +41,7 @@ type Config struct {
 	Deadline    time.Time
 	SelfCheck   bool
 	RestartEvery int
+	RealLogger  bool // execute rogger.Logger methods instead of treating them as no-ops
 	StubError   []string // functions (name prefixes) replaced by: zero results with an arbitrary nil / non-nil error
 	SkipInit    []string // repo packages whose initialisers are not run (globals stay zero)
 	GoAsCall    []string // function-name prefixes: `go f()` runs f synchronously (program order = hand-off order)
